@@ -66,14 +66,18 @@ package hcl
 // ---- interface-level contracts (assumed for every implementation; listed as trusted) ----
 // Body processing never writes memory that existed before the call.
 
+// The ghost counters count the exhaustive / partial processing calls made on bodies (used by the
+// merged-body contract: every child body is processed exactly once, in the requested mode).
+// verif:ghostvar contentCalls int
+// verif:ghostvar partialCalls int
 // verif:func (Body).Content
 //@ trusted
-//@ assigns nothing
-//@ ensures ret0 != nil && (ret1 == nil || fresh(ret1))
+//@ assigns contentCalls
+//@ ensures ret0 != nil && (ret1 == nil || fresh(ret1)) && contentCalls == old(contentCalls) + 1
 // verif:func (Body).PartialContent
 //@ trusted
-//@ assigns nothing
-//@ ensures ret0 != nil && (ret2 == nil || fresh(ret2))
+//@ assigns partialCalls
+//@ ensures ret0 != nil && (ret2 == nil || fresh(ret2)) && partialCalls == old(partialCalls) + 1
 // verif:func (Body).JustAttributes
 //@ trusted
 //@ assigns nothing
@@ -139,3 +143,25 @@ package hcl
 // verif:func (Expression).Variables
 //@ trusted
 //@ assigns nothing
+
+// ---- merged bodies (unit U10b, C04: the laws hold uniformly for merged bodies) ----
+// verif:unit U10b props=C04
+// Every child body is processed exactly once and in the requested mode: exhaustive processing of
+// the merged body is exhaustive processing of every child (so every non-matching item of every
+// child is reported), partial processing is partial processing of every child - for every schema,
+// including the empty one.
+// verif:func (Diagnostics).Append
+//@ nosafety
+//@ assigns d[*]
+// verif:func MergeBodies
+//@ nosafety
+//@ assigns nothing
+//@ loop 2 invariant fresh(new)
+// verif:func (mergedBodies).mergedContent
+//@ nosafety
+//@ requires schema != nil
+//@ ensures exhaustive: !partial ==> contentCalls == old(contentCalls) + len(mb) && partialCalls == old(partialCalls)
+//@ ensures partialMode: partial ==> partialCalls == old(partialCalls) + len(mb) && contentCalls == old(contentCalls)
+//@ loop 3 invariant contentCalls == atentry(contentCalls) && partialCalls == atentry(partialCalls)
+//@ loop 4 invariant contentCalls == atentry(contentCalls) && partialCalls == atentry(partialCalls)
+//@ loop 2 invariant (!partial ==> contentCalls == old(contentCalls) + rangeindex + 1 && partialCalls == old(partialCalls)) && (partial ==> partialCalls == old(partialCalls) + rangeindex + 1 && contentCalls == old(contentCalls)) && rangeindex + 1 <= len(mb)
